@@ -228,6 +228,7 @@ def fixed_coro_shapes():
         "always_across_states": [always_("al", bin_("and", A, B)), await_(A), assign("next", "p", ref("al")), await_(B), assign("next", "p", ref("al")), m(1)],
         "always_then_first_await": [always_("al", un("inv", A)), await_(B), m(1), await_(ref("al")), m(2)],
         "always_in_loop": [while_(TRUE, [always_("al", bin_("xor", A, B)), await_(ref("al")), m(1)] + inc)],
+        "always_block_in_coroutine": [alwaysblock([assign("next", "p", bin_("and", A, B))]), await_(A), m(1), await_(B), m(2)],
         "comment_first": [comment("start"), await_(A), m(1), await_(B), m(2)],
         "comment_stmt_await": [comment("start"), m(1), await_(A), m(2)],
         "comment_later": [await_(A), comment("mid"), m(1), await_(B), comment("end"), m(2)],
@@ -447,6 +448,10 @@ def fixed_seq_shapes():
         "always_of_own_signal": [always_("al", bin_("xor", S, D)), assign("next", "s", D), assign("next", "q", ref("al"))],
         "always_in_branch": [if_(A, [always_("al", bin_("and", D, S)), assign("next", "q", ref("al"))], [assign("next", "s", D)])],
         "always_bit": [always_("al", bin_("and", A, idx(D, 1))), if_(ref("al"), [assign("push", "p", TRUE)]), assign("next", "s", D)],
+        "always_block": [alwaysblock([assign("next", "r", bin_("concat", D, S))]), assign("next", "s", D), assign("next", "q", S)],
+        "always_block_two_statements": [alwaysblock([assign("next", target("r", [p_slice(1, 0)]), view(D, "bv")), assign("next", target("r", [p_slice(3, 2)]), view(S, "bv"))]),
+                                        if_(A, [assign("next", "s", D)])],
+        "always_block_in_branch": [if_(A, [alwaysblock([assign("next", "r", bin_("concat", S, D))]), assign("next", "s", D)], [assign("next", "s", pint(1))])],
         "elif_chain": [if_(A, [assign("next", "o", pint(1))], [if_(B, [assign("next", "o", pint(2))], [if_(bin_("eq", D, pint(3)), [assign("next", "o", pint(3))], [assign("next", "o", pint(4))])])])],
     }
 
